@@ -27,6 +27,7 @@ import os
 import re
 import sys
 import warnings
+import zlib
 
 from ..impl import c17_env as E
 from ..translate.util import TieBroken, find_def, parse
@@ -39,6 +40,7 @@ RULE = ("fn/act: structured completions (lines built from Colang/verbose prefixe
         "hostile alphabet; e2e: every base conversation of every mode (dialog, single_call, multi_step, general, passthrough, "
         "v2 intent/flow/value/utterance, and the stored-then-quoted conversations dialog_q/single_call_q/v2_quote) with a hostile or mutated completion at each LLM call position; "
         "control family: every string literal the post-processing compares with a text (scanned from the source) as the exact message at every message position of every mode incl. later-utterance bases, near misses, flow forms, through every public interface of generate; asm: event lists over the assembly's type / script literals and near misses; "
+        "value family: the literal_eval grammar structurally - every atom kind (None, bool, int, float, str, bytes, complex, Ellipsis, an int json.dumps cannot print, a string holding a literal) at every position (top, list/tuple/set element, dict value, dict KEY, inside tuple keys and tuple set-elements, nested, 5/12/40 levels deep, last of 150 elements) + random literal trees + near-literals, through the real GenerateValueAction (act) and as the completion of the value-generation call of the 2.x value conversations (e2e; once, twice, uttered / copied / interpolated later); "
         "quote family: a marked payload of template/variable/escape tokens at the position whose text is stored and later quoted. non-trivial = the text has "
         ">= 2 lines or a recognised prefix/quote/template token (fn/act), or a hostile completion was actually consumed (e2e); "
         "distinct = distinct case JSON.")
@@ -46,13 +48,14 @@ TRUSTED_BASE = [
     "correspondence harness harness/props/C17.py + harness/impl/c17_env.py (FakeLLM, fake embeddings, CPU watchdog) + Drive/C17.lean",
     "static tie: ast scan of actions/llm/generation.py and actions/v2_x/generation.py for render call sites",
     "CPython str methods are the reference for Py/Str.lean (whitespace and line-boundary tables compared exhaustively on every run)",
-    "Jinja2, literal_eval, the Colang 1.0 parser and compute_next_steps are ORACLES of the models (any result, any exception); their real behaviour is observed by the differential tasks (parse spy, literal_eval classification, step table) and exercised end-to-end",
+    "Jinja2, literal_eval, the Colang 1.0 parser and compute_next_steps are ORACLES of the models (any result, any exception); their real behaviour is observed by the differential tasks (parse spy, the literal literal_eval returned as a tree, step table) and exercised end-to-end",
     "dataflow translator harness/translate/c17.py: provenance roots by name, intra-procedural, closures = join of what their body reads",
     "assembly translator harness/translate/c17.py::assembly (shape of the two `for event in new_events` loops of generate_async -> Generated/C17Assembly.lean; any other shape breaks the tie) and the literal scan control_literals (which texts the generator feeds)",
 ]
 ASSUMPTIONS = [
     "the theorems cover the text post-processing inside the generation actions, the dispatcher's containment, the try/except structure of v1 _process_start_flow and the generate_events loop (parser / compute_next_steps as oracles) and the literal_eval wrapper of 2.x GenerateValueAction; v2 AddFlowsAction + the execution of generated flows, eval_expression and Jinja itself are search territory",
-    "multi_step_never_raises_repaired and generate_value_v2_total are about the REPAIRED code (fixes/C17-v1-flow-error-ends-turn.diff, fixes/C17-v2-generated-value-plain.diff); on the unpatched tree the as-is theorems are the partial ones and the differential accepts either behaviour inside the open findings' regions",
+    "multi_step_never_raises_repaired and generate_value_v2_total are about the repaired code (both repairs are in /repo: e77d9e1, 98bf321); generate_value_v2_storable_repaired is about the PROPOSED repair fixes/C17-v2-generated-value-printable-int.diff: on the unpatched tree the as-is statement is generate_value_v2_storable_partial (hypothesis: literal_eval returned no int beyond CPython's int->str limit) and the differential accepts the repaired guard inside that open finding's region (plain literal with such an int)",
+    "state_to_json is modelled on literal values only (Lit.encodable = the branches of encode_to_dict a literal_eval result can reach, Lit.printable = json.dumps' int limit); the serialisation of the rest of the state (flows, events, actions) is exercised end-to-end, not modelled; the model is tied by the round trip of every generated literal through the real state_to_json / json_to_state",
     "escape_flow_name's `\\b\\d+\\b` step is modelled for ASCII text only (non-ASCII strings are compared up to the replace chain by the oracle-only stream)",
     "assemble_total / assembleV2_total assume that the events the runtimes create carry the keys their type promises (`script`, `final_script`, `action_uid`); without it only KeyError is possible (assemble_only_key_error); the `asm` differential feeds event lists with and without these keys",
     "the control script `(remove last message)` as LLM-written message text IS interpreted by generate_async (the reply loses the previous utterance): the property statement speaks of template and variable syntax, so this is recorded (design_notes/C17.md, phase 5), not reported",
@@ -112,6 +115,38 @@ def _call_name(node):
     return None
 
 
+def value_wrapper_tie(src):
+    """shape of the tail of 2.x `generate_value` that `generateValueV2R` models: every value the action returns is the result of ONE
+    `literal_eval(...)` call inside a `try` whose handlers raise, and passes `if not _is_plain_value(<it>): raise` before the (only) return"""
+    tree = ast.parse(src)
+    guard = next((n for n in tree.body if isinstance(n, ast.FunctionDef) and n.name == "_is_plain_value"), None)
+    if guard is None:
+        return "module function `_is_plain_value` is gone"
+    fn = next((n for n in ast.walk(tree) if isinstance(n, ast.AsyncFunctionDef) and n.name == "generate_value"), None)
+    if fn is None:
+        return "`generate_value` is gone"
+    nodes = [n for n in ast.walk(fn)]
+    rets = [n for n in nodes if isinstance(n, ast.Return)]
+    if len(rets) != 1 or not isinstance(rets[0].value, ast.Name):
+        return f"`generate_value` has {len(rets)} return statements / returns an expression (model: one `return <the literal>`)"
+    x = rets[0].value.id
+    assigns = [n for n in nodes if isinstance(n, (ast.Assign, ast.AugAssign, ast.AnnAssign, ast.NamedExpr)) and any(isinstance(t, ast.Name) and t.id == x for t in ast.walk(n.targets[0] if isinstance(n, ast.Assign) else n.target))]
+    if len(assigns) != 1 or not (isinstance(assigns[0], ast.Assign) and isinstance(assigns[0].value, ast.Call) and isinstance(assigns[0].value.func, ast.Name) and assigns[0].value.func.id == "literal_eval"):
+        return f"the returned variable `{x}` is assigned {len(assigns)} times / not from a single `literal_eval(...)` call"
+    a = assigns[0]
+    tries = [n for n in nodes if isinstance(n, ast.Try) and a in n.body]
+    if len(tries) != 1 or not tries[0].handlers or not all(any(isinstance(s, ast.Raise) for s in h.body) for h in tries[0].handlers) or any(h.type is not None and ast.unparse(h.type) != "Exception" for h in tries[0].handlers):
+        return "`literal_eval` is not inside `try: … except Exception: raise …`"
+    guards = [n for n in fn.body if isinstance(n, ast.If) and ast.unparse(n.test) == f"not _is_plain_value({x})" and any(isinstance(s, ast.Raise) for s in n.body) and not n.orelse]
+    if len(guards) != 1 or not (tries[0].lineno < guards[0].lineno < rets[0].lineno) or rets[0] not in fn.body:
+        return f"no top-level `if not _is_plain_value({x}): raise …` between the `literal_eval` and the return"
+    # nothing may touch the literal between the guard and the return
+    between = [s for s in fn.body if guards[0].lineno < s.lineno < rets[0].lineno]
+    if between:
+        return f"statements between the guard and the return (line {between[0].lineno}): the returned value may not be the guarded one"
+    return None
+
+
 def static_tie():
     """Every call of a template renderer in the two generation modules, with the provenance of its argument.
     Expected: v1 generation.py — exactly one `_render_string` call, inside generate_bot_message, in the branch
@@ -166,6 +201,11 @@ def static_tie():
         for node in ast.walk(fn):
             if isinstance(node, ast.Call) and _call_name(node) in ("_render_string", "from_string", "render", "Template"):
                 rs2.append((fn.name, _call_name(node), ast.unparse(node.args[0]) if node.args else ""))
+    # the wrapper around literal_eval that `generateValueV2R` models (the guard's own behaviour is tied by differential on every literal)
+    with open(os.path.join(E.REPO, "nemoguardrails/actions/v2_x/generation.py")) as f:
+        wt = value_wrapper_tie(f.read())
+    if wt:
+        problems.append("2.x GenerateValueAction: " + wt + " (Models/LlmGen.lean `generateValueV2R` models: try literal_eval / except raise; if not _is_plain_value: raise; return)")
     if rs2 != [("generate_flow", "_render_string", "textwrap.dedent(docstring)")]:
         problems.append("v2 render call sites changed: expected only generate_flow: _render_string(textwrap.dedent(docstring)); found " + str(rs2))
     return problems
@@ -257,37 +297,121 @@ def mutate(rng, s):
     return s
 
 
-def g_literal(rng, depth=0):
-    """text of a Python literal (what a cooperative LLM answers at a value-generation call), incl. the literals that are not
-    plain data (`...`, bytes, complex) and near-literals"""
+# ---- Python literals: the whole grammar `ast.literal_eval` accepts, as TREES (kind, payload), rendered to source text.
+# Every atom kind can stand at every position of a container: list / tuple / set element, dict value, dict KEY, inside a tuple that
+# is a dict key or a set element, nested.  (Hashability is respected: keys and set elements are atoms or tuples of hashables.)
+LIT_ATOMS = {
+    "none": ["None"],
+    "bool": ["True", "False"],
+    "int": ["42", "0", "-7", "0x1f", "1_000", "+3", "0b101", "-0"],
+    "float": ["1.5", "1e3", "-0.0", "1e999", "-1e999", ".5", "1_0.0"],
+    "str": ["'pizza'", "\"a b\"", "\"\"", "\"\"\"x\"\"\"", "'ZQX $secret QXZ'", "\"{{ 191*7 }}\"", "r'\\n'", "'a' 'b'", "\"\\x41\\n\"", "'__type'", "'ref'"],
+    "bytes": ["b'item'", "b\"\"", "B'\\x00'", "b'a' b'b'", "rb'x'"],
+    "complex": ["2j", "2+3j", "-1j", "1-2j", "0j", "1.5e3J"],
+    "ellipsis": ["..."],
+    # a literal whose VALUE is plain data but cannot be printed: CPython refuses int -> str beyond 4300 digits (hex has no such limit on input)
+    "hugeint": ["0x" + "f" * 3600, "-0x1" + "0" * 3600],
+    # a STRING whose text is itself a literal (a wrapper that evaluates until a fixpoint / twice would reach the inner literal)
+    "strlit": ["'...'", "\"b'x'\"", "'{...: 1}'", "'2j'", "\"'...'\"", "'[1, (2, ...)]'", "'\"\\\"...\\\"\"'"],
+}
+PLAIN_KINDS = ["none", "bool", "int", "float", "str", "strlit"]
+NONPLAIN_KINDS = ["bytes", "complex", "ellipsis"]
+# one-hole position templates (`@` = the hole); `key` = the hole needs a hashable literal
+LIT_POSITIONS = [
+    ("top", "@"), ("list-elem", "[@]"), ("list-elem-last", "[1, 'a', @]"), ("list-elem-first", "[@, 1]"), ("tuple-elem", "(@,)"), ("tuple-elem-last", "(1, @)"),
+    ("set-elem", "{@}"), ("set-elem-2", "{1, @}"), ("dict-value", "{'k': @}"), ("dict-value-last", "{1: 'a', 'k': @}"),
+    ("dict-key", "{@: 'pizza'}"), ("dict-key-last", "{'a': 1, @: 'pizza'}"), ("dict-key-first", "{@: 1, 'b': 2}"), ("dict-key-and-value", "{@: @}"),
+    ("tuple-key", "{(@,): 'pizza'}"), ("tuple-key-last", "{(1, @): 'pizza'}"), ("tuple-key-nested", "{(1, (2, @)): 'pizza'}"), ("tuple-in-set", "{(1, @)}"),
+    ("nested-dict-key", "{'order': {@: 'pizza'}}"), ("list-of-dict-tuple-key", "[{(1, @): 'pizza'}]"), ("nested-list", "[[@]]"), ("tuple-dict-list", "({'a': [@]},)"),
+    ("deep-dict-value", "{'a': {'b': {'c': @}}}"), ("deep-dict-key", "{'a': {'b': {@: 'c'}}}"), ("key-of-dict-in-list-in-dict", "{'items': [1, {@: 2}]}"),
+    ("dict-in-tuple-key-value", "{(1, 2): {@: 3}}"), ("set-in-list", "[{@}, 2]"), ("dict-in-set-like", "{'s': {(@, 1)}}"),
+]
+# the same hole DEEP inside (a guard that stops looking after some levels) ...
+for _n in (5, 12, 40):
+    LIT_POSITIONS.append(("deep-list-%d" % _n, "[" * _n + "@" + "]" * _n))
+    LIT_POSITIONS.append(("deep-dict-value-%d" % _n, "{'k': " * _n + "@" + "}" * _n))
+    LIT_POSITIONS.append(("deep-tuple-key-%d" % _n, "{" + "(1, " * _n + "@" + ")" * _n + ": 'pizza'}"))
+    LIT_POSITIONS.append(("deep-mixed-%d" % _n, "".join(["[", "{'k': ", "(0, "][i % 3] for i in range(_n)) + "{@: 1}" + "".join(["]", "}", ")"][i % 3] for i in reversed(range(_n)))))
+# ... and at the END of a LONG container (a guard that samples / looks at a prefix only)
+_N_LONG = 150
+LIT_POSITIONS += [
+    ("long-list-last", "[" + "0, " * _N_LONG + "@]"), ("long-tuple-last", "(" + "'a', " * _N_LONG + "@)"),
+    ("long-set-last", "{" + ", ".join(str(i) for i in range(_N_LONG)) + ", @}"),
+    ("long-dict-last-key", "{" + ", ".join("%d: %d" % (i, i) for i in range(_N_LONG)) + ", @: 1}"),
+    ("long-dict-last-value", "{" + ", ".join("'k%d': %d" % (i, i) for i in range(_N_LONG)) + ", 'last': @}"),
+    ("long-tuple-key-last", "{(" + "1, " * _N_LONG + "@): 'pizza'}"),
+]
+
+
+def literal_positions(kinds=None, first_only=False, n_atoms=None):
+    """the structural enumeration: every atom kind at every position (text, kind, position name)"""
+    out = []
+    for kind, atoms in LIT_ATOMS.items():
+        if kinds is not None and kind not in kinds:
+            continue
+        for a in (atoms[:1] if first_only else atoms[:n_atoms]):
+            for name, tpl in LIT_POSITIONS:
+                out.append((tpl.replace("@", a), kind, name))
+    return out
+
+
+def lit_text(t):
+    k = t[0]
+    if k == "atom":
+        return t[1]
+    if k == "list":
+        return "[" + ", ".join(lit_text(x) for x in t[1]) + "]"
+    if k == "tuple":
+        return "(" + ", ".join(lit_text(x) for x in t[1]) + ("," if len(t[1]) == 1 else "") + ")"
+    if k == "set":
+        return "{" + ", ".join(lit_text(x) for x in t[1]) + "}" if t[1] else "set()"
+    return "{" + ", ".join(lit_text(a) + ": " + lit_text(b) for a, b in t[1]) + "}"
+
+
+def g_lit_tree(rng, depth=0, hashable=False, p_nonplain=0.18):
+    """random literal tree; `hashable`: usable as a dict key / set element (atom or tuple of hashables)"""
     r = rng.random()
-    if depth < 2 and r < 0.25:
-        items = [g_literal(rng, depth + 1) for _ in range(rng.choice([0, 1, 2, 3]))]
-        k = rng.choice(["list", "tuple", "set", "dict"])
-        if k == "list":
-            return "[" + ", ".join(items) + "]"
-        if k == "tuple":
-            return "(" + ", ".join(items) + ("," if len(items) == 1 else "") + ")"
+    if depth < 3 and r < (0.5 if depth == 0 else 0.3):
+        kinds = ["tuple"] if hashable else ["list", "tuple", "set", "dict", "dict"]
+        k = rng.choice(kinds)
+        n = rng.choice([0, 1, 1, 2, 2, 3])
+        if k in ("list", "tuple"):
+            return (k, [g_lit_tree(rng, depth + 1, hashable, p_nonplain) for _ in range(n)])
         if k == "set":
-            return "{" + ", ".join(items) + "}" if items else "set()"
-        return "{" + ", ".join(g_literal(rng, 2) + ": " + x for x in items) + "}"
-    if r < 0.55:
-        q = rng.choice(["\"", "'", "\"\"\""])
-        body = rng.choice(WORDS + TEMPLATES + ["", "a b", "it is", "\\n", "\\x41", "ZQX $secret QXZ"])
-        return q + body + q
-    if r < 0.8:
-        return rng.choice(["0", "42", "-7", "1.5", "1e3", "True", "False", "None", "0x1f", "1_000", "-0.0", "inf", "nan"])
-    return rng.choice(["...", "b'x'", "b\"\"", "1j", "2+3j", "Ellipsis", "[...]", "(1, ...)", "{1: ...}", "{...}", "1 + 1", "-x", "[1, 2", "{'a'}", "\"a\" \"b\"", "'a' + 'b'"])
+            return (k, [g_lit_tree(rng, depth + 1, True, p_nonplain) for _ in range(n)])
+        return (k, [(g_lit_tree(rng, depth + 1, True, p_nonplain), g_lit_tree(rng, depth + 1, False, p_nonplain)) for _ in range(n)])
+    kind = rng.choice(NONPLAIN_KINDS) if rng.random() < p_nonplain else rng.choice(PLAIN_KINDS + ["str", "int"])
+    if kind == "strlit" and depth < 3 and rng.random() < 0.5:
+        return ("atom", repr(lit_text(g_lit_tree(rng, depth + 2, hashable, 0.5))))
+    if rng.random() < 0.01:
+        kind = "hugeint"
+    return ("atom", rng.choice(LIT_ATOMS[kind]))
+
+
+NEAR_LITERALS = ["Ellipsis", "1 + 1", "-x", "[1, 2", "{'a'", "'a' + 'b'", "inf", "nan", "f'{1}'", "{**{}}", "[*[]]", "set([1])", "dict()", "frozenset()", "1 if 1 else 2", "(1)(2)", "{1: }", "{: 1}",
+                 "{[1]: 2}", "{{1}: 2}", "{{}: 1}", "[1,, 2]", "1 + 2j + 3", "-'a'", "+b'x'", "1j + 1", "{...: }", "(... : 1)", "b'\\xff' 'a'", "None.x", "True[0]", "..."  + ".", ". . .", "…"]
+
+
+def g_literal(rng, depth=0):
+    """text of a Python literal (what a cooperative LLM answers at a value-generation call): a random tree over the whole grammar
+    (non-plain atoms - `...`, bytes, complex - at any position incl. dict keys and tuple keys), or a near-literal"""
+    r = rng.random()
+    if r < 0.12:
+        return rng.choice(NEAR_LITERALS)
+    if r < 0.2:
+        # a well-formed tree with one sub-literal replaced by a near-literal
+        return lit_text(g_lit_tree(rng)).replace("42", rng.choice(NEAR_LITERALS), 1)
+    return lit_text(g_lit_tree(rng, depth))
 
 
 def g_value_text(rng):
     t = g_literal(rng)
     r = rng.random()
-    if r < 0.15:
+    if r < 0.1:
         t = t + ";"
-    elif r < 0.25:
+    elif r < 0.18:
         t = "  " + t + "\n" + g_line(rng)
-    elif r < 0.32:
+    elif r < 0.24:
         t = rng.choice(["$v = ", "v = ", "Answer: "]) + t
     return t
 
@@ -342,6 +466,7 @@ def base_conversations():
         ("v2_intent", ["hello there", "meh"], ["user expressed greeting", "user expressed to be bored"], [], "user expressed greeting"),
         ("v2_flowgen", ["tell me a joke", "another"], ["user asked for a joke", "bot intent: bot tell joke\nbot action: bot say \"Why?\"", "user asked again", "bot intent: bot tell another\nbot action: bot say \"Because.\""], [], "bot action: bot say \"fb\""),
         ("v2_value", ["I like trains", "ok"], ["\"trains\""], [0], "\"fb\""),
+        ("v2_value2", ["I like trains", "and planes", "bye", "ok"], ["\"trains\"", "\"planes\"", "\"See you!\""], [0, 1, 2], "\"fb\""),
         ("v2_utter", ["tell me a joke", "more"], ["user intent: user asked for joke\nbot intent: bot tell joke\nbot action: bot say \"Why?\"", "user intent: user asked more\nbot intent: bot tell more\nbot action: bot say \"More.\""], [], "bot action: bot say \"fb\""),
     ] + [(mode, turns, script, [store], fb) for mode, turns, script, store, _wrap, fb in QUOTE_BASES]
 
@@ -688,8 +813,14 @@ def gen_cases(rng, tier):
         if task in ("value", "v2_value") and rng.random() < 0.6:
             text = g_value_text(rng)  # (after the draws above: the stream of the other tasks is unchanged)
         cases.append({"kind": "act", "task": task, "prompts": rng.choice(["instruct", "chat", "verbose"]), "s": text})
+    # the literal grammar, structurally: every atom kind x every position (value, element, dict KEY, inside tuple keys, nested) through
+    # the real GenerateValueAction (guard differential + storability oracle) ...
+    for i, (text, _kind, _pos) in enumerate(literal_positions()):
+        cases.append({"kind": "act", "task": "v2_value", "prompts": ["instruct", "chat", "verbose"][i % 3], "s": text})
     for _ in range(n_bot):
         cases.append(g_botmsg(rng))
+    # ... and as the completion of the value-generation call of whole 2.x turns (the state is serialised at the end of every turn)
+    cases.extend(gen_value_e2e(rng, tier))
     cases.extend(gen_e2e(rng, n_e2e))
     cases.extend(gen_quote(rng, n_quote))
     n_ctrl, n_asm = (250, 600) if tier == "quick" else (2000, 6000)
@@ -735,6 +866,55 @@ def g_botmsg(rng):
         bm = rng.choice(['Bot message: "<<STREAMING[abc]>>"', 'Bot message: "<<STREAMING[', "I'm not sure what to say.", msg_with_sentinel(SENT_EXPR + " $secret")]) if rng.random() < 0.4 else (g_line(rng) or "x")
         case["sc"] = [bi if rng.random() < 0.7 else rng.choice(intents), bm]
     return case
+
+
+def value_bases():
+    """(mode, turns, cooperative completions, position of the value-generation call, fallback) of every 2.x conversation that generates a value"""
+    out = []
+    for mode, turns, script, msgpos, fb in base_conversations():
+        if mode in ("v2_value", "v2_quote", "v2_value2"):
+            out.append((mode, turns, script, msgpos[0] if msgpos else 0, msgpos, fb))
+    return out
+
+
+def gen_value_e2e(rng, tier):
+    """a generated VALUE at the value-generation call of 2.x turns: the structural enumeration of the literal grammar (every non-plain
+    atom kind at every position; plain kinds and the unprintable int sampled), random literal trees, near-literals"""
+    vb = value_bases()
+    texts = []
+    first = tier == "quick"
+    for j, (text, kind, pos) in enumerate(literal_positions(NONPLAIN_KINDS, first_only=first, n_atoms=3)):
+        # quick: the deep / long positions with one of the three non-plain kinds each (rotating), every other position with all three
+        if not first or not pos.startswith(("deep-", "long-")) or NONPLAIN_KINDS.index(kind) == [n for n, _ in LIT_POSITIONS].index(pos) % 3:
+            texts.append(text)
+    if first:
+        # the other atoms of the non-plain kinds (falsy ones, concatenations, …) and the string-of-a-literal atoms at the main positions
+        for text, kind, pos in literal_positions(NONPLAIN_KINDS + ["strlit"]):
+            if pos in ("top", "dict-key") and text not in texts:
+                texts.append(text)
+    plain = literal_positions(PLAIN_KINDS + ["hugeint"], first_only=True)
+    rng.shuffle(plain)
+    texts += [t for t, _, _ in plain[: (14 if first else 150)]]
+    for _ in range(20 if first else 250):
+        texts.append(g_value_text(rng))
+    tpl = dict(LIT_POSITIONS)
+    sibling = {t: tpl[pos].replace("@", "'pizza'") for t, kind, pos in literal_positions() if kind not in PLAIN_KINDS}
+    out = []
+    for i, text in enumerate(texts):
+        # every text in the plain value conversation; the conversations that utter / copy / interpolate the value later, and the one
+        # that reaches the value generation twice (same completion both times: the second use), in turn
+        for bi, (mode, turns, script, pos, msgpos, fb) in enumerate(vb):
+            if bi == 0 or i % (6 if first else 5) == bi % 3:
+                resp = list(script)
+                ps = msgpos if mode == "v2_value2" else [pos]
+                for p in ps:
+                    resp[p] = text
+                if mode == "v2_value2" and (i // 6) % 2 == 1 and sibling.get(text):
+                    # the first reach of the statement gets the PLAIN literal of the same shape (same position, a str atom): what a cache
+                    # keyed by the shape / type / length of the value would remember for the second reach
+                    resp[ps[0]] = sibling[text]
+                out.append({"kind": "e2e", "mode": mode, "turns": turns, "llm": resp, "fallback": fb, "pos": list(ps), "msgpos": msgpos, "value": True})
+    return out
 
 
 def gen_e2e(rng, n):
@@ -916,6 +1096,7 @@ def act_impl(case):
                 import nemoguardrails.actions.v2_x.generation as G2
 
                 obs["parser"] = _parser_name(app, Task.GENERATE_VALUE_FROM_INSTRUCTION)
+                vn = "v"  # (without a variable name the action raises UnboundLocalError before the LLM call whenever a flows index exists: upstream, not LLM-related)
                 seen = []
                 old = G2.literal_eval
                 G2.literal_eval = lambda v: seen.append(v) or v
@@ -929,7 +1110,7 @@ def act_impl(case):
 
                 tm.render_task_prompt = rtp
                 try:
-                    _run(A.generate_value(state=app._verif_state, instructions="extract", events=[], var_name="v", llm=llm))
+                    _run(A.generate_value(state=app._verif_state, instructions="extract", events=[], var_name=vn, llm=llm))
                     obs["value_v2"] = {"ok": seen[0]}
                 except Exception as e:  # noqa
                     obs["value_v2"] = _exc(e)
@@ -943,13 +1124,25 @@ def act_impl(case):
                             warnings.simplefilter("ignore")
                             lv = ast.literal_eval(seen[0])
                         obs["lit"] = "plain" if _plain(lv) else "nonplain"
+                        # the literal itself, as a tree, for the model's `Lit.isPlain` (differential on EVERY generated literal) ...
+                        obs["lit_tree"] = lit_tree_of(lv)
+                        # ... and what the REAL state serialisation does with this literal (stored or not): ties `Lit.storable`
+                        obs["lit_storable"] = _storable(lv) is None
+                        # ... against the guard of the code under test
+                        guard = getattr(G2, "_is_plain_value", None)
+                        try:
+                            obs["real_plain"] = bool(guard(lv)) if guard is not None else "absent"
+                        except Exception as e:  # noqa
+                            obs["real_plain"] = "raised:" + type(e).__name__
                     except BaseException:  # noqa  (literal_eval can raise ValueError, SyntaxError, MemoryError, RecursionError, TypeError …)
                         obs["lit"] = "raised"
                     try:
                         with warnings.catch_warnings():
                             warnings.simplefilter("ignore")
-                            rv = _run(A.generate_value(state=app._verif_state, instructions="extract", events=[], var_name="v", llm=llm))
+                            rv = _run(A.generate_value(state=app._verif_state, instructions="extract", events=[], var_name=vn, llm=llm))
                         obs["wrapper"] = "ok-plain" if _plain(rv) else "ok-nonplain"
+                        # what the turn does with a returned value: it is stored in a flow context and the state is serialised
+                        obs["storable"] = _storable(rv)
                     except Exception as e:  # noqa
                         obs["wrapper"] = "invalid" if type(e) is Exception and str(e).startswith("Invalid LLM response") else "other:" + type(e).__name__
                 pr = cap.get("p")
@@ -966,6 +1159,61 @@ def act_impl(case):
 
 
 UUID = "abcdef0123456789abcdef"
+
+
+_INT_STR_LIMIT = 10 ** 4300
+
+
+def lit_tree_of(v):
+    """a value returned by `ast.literal_eval` as the JSON tree the driver decodes into `Lit` (atoms without payload)"""
+    if v is None:
+        return {"k": "none"}
+    if v is Ellipsis:
+        return {"k": "ellipsis"}
+    t = type(v)
+    if t is int:
+        return {"k": "int", "big": abs(v) >= _INT_STR_LIMIT}  # `str(v)` / `json.dumps(v)` raise (CPython's int -> str limit, 4300 digits)
+    if t in (bool, float, str, bytes, complex):
+        return {"k": t.__name__}
+    if t in (list, tuple, set):
+        return {"k": t.__name__, "xs": [lit_tree_of(x) for x in v]}
+    if t is dict:
+        return {"k": "dict", "kvs": [[lit_tree_of(a), lit_tree_of(b)] for a, b in v.items()]}
+    return {"k": "other:" + t.__name__}
+
+
+def _storable(v):
+    """None, or why the REAL `state_to_json` / `json_to_state` refuse a state whose context holds the value"""
+    from nemoguardrails.colang.v2_x.runtime.flows import State
+    from nemoguardrails.colang.v2_x.runtime.serialization import json_to_state, state_to_json
+
+    try:
+        j = state_to_json(State(flow_states={}, flow_configs={}, context={"v": v}))
+    except Exception as e:  # noqa
+        return f"state_to_json: {type(e).__name__}: {str(e)[:80]}"
+    try:
+        back = json_to_state(j).context.get("v")
+    except Exception as e:  # noqa
+        return f"json_to_state: {type(e).__name__}: {str(e)[:80]}"
+    try:
+        same = back == v or (back != back and v != v) or repr(back) == repr(v)
+    except Exception:  # noqa
+        same = False
+    return None if same else f"round trip: stored {repr(v)[:60]} restored {repr(back)[:60]}"
+
+
+def nonplain_positions(tree, where="top", in_key=False):
+    """positions of the non-plain atoms of a literal tree: top / element / dict-value / dict-key / inside-tuple-key"""
+    k = tree["k"]
+    if k in ("bytes", "complex", "ellipsis") or k.startswith("other"):
+        return {where}
+    out = set()
+    for x in tree.get("xs", []):
+        out |= nonplain_positions(x, "inside-tuple-key" if in_key else k + "-element", in_key)
+    for a, b in tree.get("kvs", []):
+        out |= nonplain_positions(a, "dict-key", True)
+        out |= nonplain_positions(b, "dict-value", in_key)
+    return out
 
 
 def _plain(v):
@@ -1233,7 +1481,10 @@ def run_impl(case):
         return botmsg_impl(case)
     if k == "e2e":
         ctx = {"secret": E.SECRET} if not case["mode"].startswith("v2") else None
-        return E.run_conversation(case["mode"], case["turns"], case["llm"], case["fallback"], context=ctx, api=case.get("api"))
+        # 2.x: the state returned with every turn is checked (cheaply on every turn; restored after the last turn of
+        # every conversation that generates a value and of a fixed eighth of the others; the other turns' states are restored by the next turn)
+        full = case["mode"] in ("v2_value", "v2_quote", "v2_value2") or zlib.crc32(json.dumps(case, sort_keys=True).encode()) % 8 == 0
+        return E.run_conversation(case["mode"], case["turns"], case["llm"], case["fallback"], context=ctx, api=case.get("api"), full_state_check=full, fresh=bool(case.get("fresh")))
     if k == "asm":
         return asm_impl(case)
     raise ValueError(k)
@@ -1250,6 +1501,8 @@ def model_requests(case, obs):
     if k == "act":
         reqs = [{"m": "C17.all", "s": case["s"], "k": 2, "parser": obs.get("parser", "none")},
                 {"m": "C17.gen", "s": case["s"], "parser": obs.get("parser", "none"), "uuid": UUID[:8], "name": obs.get("name", "x"), "last_prompt_line": obs.get("last_prompt_line", "\x00none"), "lit": obs.get("lit", "raised")}]
+        if "lit_tree" in obs:
+            reqs[1]["lit_tree"] = obs["lit_tree"]
         if case["task"] == "ms_next_step":
             reqs.append({"m": "C17.ms", "s": case["s"], "parser": obs.get("parser", "none"), "parses": obs["parses"]})
         if case["task"] == "gen_events":
@@ -1330,13 +1583,27 @@ def compare(case, obs, mouts):
             if key in obs and g.get(key) != obs[key]:
                 return f"{key}: implementation {obs[key]!r} model {g.get(key)!r} (parser {obs.get('parser', 'none')})"
         if "wrapper" in obs:
-            # literal_eval is an oracle (observed: raised / plain / non-plain literal); the wrapper must behave like the model.
-            # Inside the region of the open finding (non-plain literal) the as-is code returns the value, the repaired code refuses it.
+            # literal_eval is an oracle: the model is driven with what it DID on this text (raised / the literal as a tree); the wrapper
+            # (try: literal_eval / guard `_is_plain_value` / `Invalid LLM response`) must behave like `generateValueV2R` and the guard
+            # like `Lit.isPlain` on every literal - at every position of the tree (elements, values, dict KEYS, tuples inside keys)
             w, mw = obs["wrapper"], g["value_v2_wrapper"]
-            want = {"raised": ["invalid"], "plain": ["ok-plain"], "nonplain": ["ok-nonplain", "invalid"]}[obs["lit"]]
-            mwant = {"raised": "invalid", "plain": "ok", "nonplain": "invalid"}[obs["lit"]]
-            if w not in want or mw["repaired"] != mwant or (obs["lit"] != "nonplain" and mw["as_is"] != mw["repaired"]):
-                return f"GenerateValueAction wrapper: literal_eval {obs['lit']}, implementation {w}, model as-is {mw['as_is']} / repaired {mw['repaired']}"
+            if obs["lit"] != "raised":
+                if mw.get("is_plain") is None:
+                    return f"GenerateValueAction: literal_eval returned a value outside the model's `Lit`: {obs.get('lit_tree')}"
+                if obs["lit_storable"] != mw["storable"]:
+                    return f"state_to_json: implementation {'accepts' if obs['lit_storable'] else 'refuses'} the literal {json.dumps(obs['lit_tree'])[:300]}, model Lit.storable {mw['storable']!r}"
+                # inside the region of the open finding (a plain literal with an unprintable int) the guard of the proposed repair
+                # (`generateValueV2S`: not plain) is accepted as well, so that the tie also holds on the repaired tree
+                in_open = mw["is_plain"] and not mw["storable"]
+                if obs["real_plain"] != mw["is_plain"] and not (in_open and obs["real_plain"] is False and w == "invalid"):
+                    return f"_is_plain_value: implementation {obs['real_plain']!r}, model Lit.isPlain {mw['is_plain']!r} on the literal {json.dumps(obs['lit_tree'])[:300]}"
+                if (obs["lit"] == "plain") != mw["is_plain"]:
+                    return f"Lit.isPlain {mw['is_plain']!r} but the harness classifies the literal as {obs['lit']}"
+                if in_open and w == "invalid" and mw["storable_repair"] == "invalid":
+                    w = "ok-plain"
+            want = {"ok": "ok-plain", "invalid": "invalid"}.get(mw["repaired"])
+            if w != want:
+                return f"GenerateValueAction wrapper: literal_eval {obs['lit']}, implementation {w}, model {mw['repaired']} (before repair 98bf321: {mw['as_is']})"
         if "intent_and_action" in obs:
             v = obs["intent_and_action"]
             if not (isinstance(v, dict) and "err" in v) and g["intent_and_action"] != v:
@@ -1366,7 +1633,7 @@ def compare(case, obs, mouts):
                 real = "raised" if "err" in r else ("fallback" if r["ok"] == [enc("BotIntent:general response")] else "next")
                 if mouts[2]["res"] != real and not (real == "fallback" and mouts[2]["res"] == "next" and obs.get("parse_flows") == [obs["flow_id"]]):
                     return f"_process_start_flow try/except: parser behaviour {obs.get('parse_flows')!r} (None = raised), implementation {real}, model {mouts[2]['res']}"
-        obs = {kk: vv for kk, vv in obs.items() if kk not in ("from_instructions", "from_name", "continuation", "from_nld", "value_v2", "user_intent_v2", "intent_and_action", "ms", "start_flow", "parses", "src", "flow_id", "parses_flow", "parse_flows", "name", "last_prompt_line", "lit", "wrapper", "gen_events")}
+        obs = {kk: vv for kk, vv in obs.items() if kk not in ("from_instructions", "from_name", "continuation", "from_nld", "value_v2", "user_intent_v2", "intent_and_action", "ms", "start_flow", "parses", "src", "flow_id", "parses_flow", "parse_flows", "name", "last_prompt_line", "lit", "wrapper", "gen_events", "lit_tree", "real_plain", "storable", "lit_storable")}
     if k in ("fn", "act"):
         for key, v in obs.items():
             if key in ("parser", "nonascii"):
@@ -1498,6 +1765,10 @@ def oracle(case, obs):
             return f"malformed:response assembly (2.x) returned {str(o)[:200]}"
         return None
     if k == "act":
+        # a value that GenerateValueAction RETURNS is stored in a flow context, and the state is serialised at the end of the turn
+        # (outside every try/except): the serialisation must accept it and give it back
+        if obs.get("storable"):
+            return f"escape:GenerateValueAction returned a value the state serialisation refuses ({obs['storable']}): the turn that stores it raises out of generate"
         # an action may raise (contained by the dispatcher) but a returned event must be well-formed
         for key, v in obs.items():
             if key in ("post_user_intent", "post_general", "post_user_intent_v2"):
@@ -1522,6 +1793,9 @@ def oracle(case, obs):
         ok, text = _content_of(mode, rec["reply"])
         if not ok:
             return f"malformed:turn {t}: generate returned {str(rec['reply'])[:200]}"
+        # 2.x: a turn that returned must have ended with a state the serialisation accepts (whatever the LLM said, whatever value was generated)
+        if rec.get("state_problem"):
+            return f"state:turn {t}: the state returned by generate is {rec['state_problem']}"
         if _has_sentinel_syntax(case):
             if SENT_VALUE in text and not any(SENT_VALUE in x for x in case["llm"] + [case["fallback"]]):
                 return f"evaluated:turn {t}: template/interpolation expression (191*7) from an LLM completion was evaluated: reply {text[:200]!r}"
@@ -1567,11 +1841,16 @@ def _asm_keys_present(case):
 
 def signature(case, obs, msg):
     k = case["kind"]
+    if k == "act" and obs.get("storable") and (msg or "").startswith(("escape:GenerateValueAction", "_is_plain_value", "GenerateValueAction")):
+        # same class of failing inputs as the end-to-end escape: named by the serialisation step that refuses the value
+        st = obs["storable"]
+        where = "state_to_json:ValueError" if st.startswith("state_to_json: ValueError") else "encode_to_dict:Exception" if st.startswith("state_to_json: Exception: Unhandled type") else "state:" + st.split(":")[1].strip()
+        return "escape:v2_value:serialization.py:" + where
     if k != "e2e":
         return (msg or "").split(":")[0] + ":" + k if msg else None
     mode = case["mode"]
     cls = (msg or "").split(":")[0]
-    if cls in ("escape", "hang") and mode == "v2_quote":
+    if cls in ("escape", "hang") and mode in ("v2_quote", "v2_value2"):
         mode = "v2_value"  # the same GenerateValueAction conversation family: one class of failing inputs
     if cls in ("escape", "hang"):
         for rec in obs["turns"]:
@@ -1602,7 +1881,7 @@ def signature(case, obs, msg):
     if cls == "rewritten":
         if mode in ("v2_flowgen", "v2_utter", "v2_intent"):
             return "rewritten:v2:interpolation-of-llm-text"  # the LLM wrote the flow: its text is a string literal of Colang source
-        if mode in ("v2_value", "v2_quote"):
+        if mode in ("v2_value", "v2_quote", "v2_value2"):
             # known: the flow author interpolates a generated value (`"got: {$v}"`, `"again: {$v}"`) and eval_expression re-reads it.
             # A generated value uttered without interpolation (`bot say $v`) must come back literally: a different class.
             if bad is not None and any(ln.startswith(pre) for ln in bad.split("\n") for pre in V2_INTERPOLATION_PREFIXES if MARK_L in ln):
@@ -1612,7 +1891,7 @@ def signature(case, obs, msg):
     return f"{cls}:{mode}"
 
 
-V2_INTERPOLATION_PREFIXES = ["got: ", "again: "]
+V2_INTERPOLATION_PREFIXES = ["got: ", "again: ", "second: "]
 
 
 def _bad_turn_text(case, obs, msg):
@@ -1660,6 +1939,9 @@ def tags(case, obs):
         t.append("parser:" + obs.get("parser", "?"))
         if "wrapper" in obs:
             t.append("literal_eval:" + obs["lit"] + "->" + obs["wrapper"])
+            if "lit_tree" in obs:
+                for pos in sorted(nonplain_positions(obs["lit_tree"])):
+                    t.append("literal:nonplain-at:" + pos)
         if "gen_events" in obs:
             t.append("gen_events:" + obs["gen_events"]["res"])
         if case.get("inject") is not None:
@@ -1711,6 +1993,11 @@ def shrink(case):
         for i in range(len(case["events"])):
             yield dict(case, events=case["events"][:i] + case["events"][i + 1:])
     elif case["kind"] == "e2e":
+        if case.get("value") and not case.get("fresh"):
+            # value conversations: shrink on a NEW LLMRails instance, so that the reported input does not depend on what the worker's
+            # shared instance saw before (a failure that needs the second use of something keeps the turns that provide it)
+            case = dict(case, fresh=True)
+            yield case
         if case.get("api"):
             yield {kk: vv for kk, vv in case.items() if kk != "api"}
         if len(case["turns"]) > 1:
@@ -1739,4 +2026,12 @@ def escalate(rng, focus, tier):
     for _ in range(n):
         cases.append(g_botmsg(rng))
     cases = gen_control(rng, n, "thorough" if tier == "thorough" else "quick") + gen_quote(rng, n // 2) + cases
+    if focus and focus.get("task") in ("v2_value", "value"):
+        # a broken guard / wrapper correspondence: the differing completion and the literal grammar at every value-generation call
+        for mode, turns, script, pos, msgpos, fb in value_bases():
+            resp = list(script)
+            for p in (msgpos if mode == "v2_value2" else [pos]):
+                resp[p] = focus["s"]
+            cases.insert(0, {"kind": "e2e", "mode": mode, "turns": turns, "llm": resp, "fallback": fb, "pos": [pos], "msgpos": msgpos, "value": True})
+        cases = cases[: len(value_bases())] + gen_value_e2e(rng, "thorough" if tier == "thorough" else "quick") + cases[len(value_bases()):]
     return cases
